@@ -150,6 +150,11 @@ func startup(user string) M {
 func send(m M) M { return M{"k": "send", "m": m} }
 
 func (g *gen) simpleErr() M {
+	if g.chance(0.3) {
+		// whatever severity the handler gives its error, a failure is reported as an ErrorResponse
+		sevs := []string{"ERROR", "FATAL", "PANIC", "WARNING", "NOTICE", "DEBUG", "INFO", "LOG"}
+		return M{"base": "boom " + g.text(8), "layers": []any{M{"d": "sev", "v": sevs[g.rng.Intn(len(sevs))]}}}
+	}
 	return M{"base": "boom " + g.text(8), "layers": []any{}}
 }
 
@@ -290,6 +295,9 @@ func (g *gen) behC06() M {
 					st["prog"] = append(append([]any{}, prog[:len(prog)-1]...), M{"op": "panic"})
 				}
 			}
+			if g.chance(0.25) {
+				q["pad"] = 800 + g.rng.Intn(2500) // bulky query texts: names defined earlier must survive kilobytes of later traffic
+			}
 			m = M{"t": "P", "name": g.name(), "q": q, "noids": 0}
 		case 3, 4:
 			m = M{"t": "B", "portal": g.name(), "stmt": g.name(), "pfmt": []any{}, "params": []any{}, "rfmt": []any{}}
@@ -306,7 +314,21 @@ func (g *gen) behC06() M {
 		case 12:
 			m = M{"t": "Q", "q": g.script(2, 3)}
 		case 13:
-			switch g.rng.Intn(4) {
+			switch g.rng.Intn(5) {
+			case 4:
+				// a name defined now is still known after kilobytes of other traffic
+				nm := g.name()
+				steps = append(steps, send(M{"t": "P", "name": nm, "q": g.trivialQ(), "noids": 0}))
+				for k := 0; k < 3+g.rng.Intn(4); k++ {
+					q := g.trivialQ()
+					q["pad"] = 900 + g.rng.Intn(800)
+					steps = append(steps, send(M{"t": "P", "name": "bulk", "q": q, "noids": 0}))
+				}
+				if g.chance(0.5) {
+					m = M{"t": "B", "portal": nm, "stmt": nm, "pfmt": []any{}, "params": []any{}, "rfmt": []any{}}
+				} else {
+					m = M{"t": "D", "kind": "S", "name": nm}
+				}
 			case 0:
 				m = M{"t": "U"}
 			case 1:
